@@ -210,9 +210,10 @@ func (p *rigPlugin) PreCall(ctx context.Context, serviceName, methodName string,
 }
 
 func (p *rigPlugin) HandleConnAccept(conn net.Conn) (net.Conn, bool) {
-	atomic.AddInt32(&p.r.accepted, 1)
-	if atomic.LoadInt32(&wrapChunky) != 0 {
-		conn = &chunkyConn{Conn: conn, seed: int64(atomic.AddInt32(&p.r.accepted, 0))}
+	m := atomic.LoadInt32(&wrapChunky) // read before the acceptance becomes visible to the harness
+	n := atomic.AddInt32(&p.r.accepted, 1)
+	if m != 0 {
+		conn = &chunkyConn{Conn: conn, seed: int64(n), pause: m == 2}
 	}
 	return conn, atomic.LoadInt32(&rejectAccept) == 0
 }
@@ -227,6 +228,7 @@ type chunkyConn struct {
 	mu     sync.Mutex
 	seed   int64
 	writes int64
+	pause  bool // always pause after a Write call (between calls, never inside one)
 }
 
 func (c *chunkyConn) Write(p []byte) (int, error) {
@@ -258,7 +260,9 @@ func (c *chunkyConn) Write(p []byte) (int, error) {
 	}
 	c.mu.Unlock()
 	// a scheduling delay between this write and the next one
-	if x%4 == 0 {
+	if c.pause {
+		time.Sleep(time.Millisecond)
+	} else if x%4 == 0 {
 		time.Sleep(time.Duration(x%300) * time.Microsecond)
 	} else {
 		runtime.Gosched()
